@@ -576,9 +576,24 @@ fn check_c02(ctx: &Ctx, ti: usize, r: &Ref, case: &Case) -> CaseResult {
                 ok = false;
                 break;
             };
+            // another child subtree of this level whose constraints the value satisfies as well: the description
+            // leaves the dispatch open (siblings constraining different fields), whatever specialize() picks
+            let rival = {
+                let pobj = cur.as_object().cloned().unwrap_or_default();
+                r.d.children_of(&chain[k]).iter().filter(|ch| **ch != chain[k + 1]).any(|ch| {
+                    let mut nodes = vec![ch.clone()];
+                    nodes.extend(r.d.descendants_of(ch));
+                    nodes.iter().any(|n| cons_below(r, &chain[k], n).iter().all(|(f, v)| pobj.get(f).map(|g| g.as_u64() == Some(*v)).unwrap_or(true)))
+                })
+            };
             match spec(&cur) {
                 Out::Ok(c) => match c.get(&chain[k + 1]) {
                     Some(x) => cur = x.clone(),
+                    None if rival => {
+                        ok = false;
+                        res.events.insert("ambiguous-sibling-constraints".into());
+                        break;
+                    }
                     None => {
                         // a child without discriminant specializes to None (statement ambiguity, see DESIGN C06-L)
                         if c == json!("None") && !strong_match(r, &chain[k], &chain[k + 1], cur.as_object().unwrap_or(&serde_json::Map::new())) {
@@ -591,6 +606,11 @@ fn check_c02(ctx: &Ctx, ti: usize, r: &Ref, case: &Case) -> CaseResult {
                         break;
                     }
                 },
+                _ if rival => {
+                    ok = false;
+                    res.events.insert("ambiguous-sibling-constraints".into());
+                    break;
+                }
                 o => {
                     res.fails.push(fail("specialize", format!("fails-on-valid:{}", o.kind()), out_brief(&o)));
                     ok = false;
